@@ -132,7 +132,7 @@ def run(res, tier, seed):
 
     # ---- R (+ T on the same runs)
     gens = [("G_names", "MC_CfgsNames", "TwoOutcomes", ["servfail"]),
-            ("G_strategy", "MC_CfgsStrategy", "AllOutcomes", ["servfail", "io"]),
+            ("G_strategy", "MC_CfgsStrategy", "AllOutcomes", ["servfail", "io", "timeout"]),
             ("G_hosts", "MC_CfgsHosts", "TwoOutcomes", ["servfail"]),
             ("G_special", "MC_CfgsSpecial", "TwoOutcomes", ["servfail"])]
     if thorough:
@@ -210,7 +210,7 @@ def run(res, tier, seed):
     res.extra["generated_cases_replayed"] = total
 
     # ---- T: seeded random + the system hosts file
-    n_rand = 60000 if thorough else 6000
+    n_rand = 60000 if thorough else 10000
     rpath = os.path.join(wd, "random.trace.ndjson")
     vlib.run_driver("drive_stub", ["record", "--trace", rpath, "--n", str(n_rand), "--seed", str(seed)],
                     stdout_path=os.path.join(wd, "random.out"))
